@@ -258,3 +258,8 @@ func sboxCfgErr(s *boxStore) string {
 	_, err := config.For(sboxResources(s), config.DontValidate)
 	return fmt.Sprint(err)
 }
+
+func TestVerif_C18(t *testing.T) {
+	vfMain(t, "C18", vfSizes{Quick: 60, Thorough: 1500}, sboxRule+"every call of the speaker's configuration handler is compared with the previous accepted one: the resources the reconciler listed (by value, order-free, status fields blanked) must have changed; non-trivial = distinct delivered resource set",
+		func(c *vfCase) { sboxHistory(c, sboxMon{c18: true}, 30, 3) })
+}
